@@ -379,7 +379,7 @@ def run(ctx):
         "null RCPs of freshly sized vec_basic are modelled as zero (every slot is overwritten when the row pointers are well formed)",
         "theorems assume rows*cols < 2^31 so that no 32-bit index computation wraps; the model itself carries the wrap",
         "csr_matmat_pass1/2 have no caller in the library: the driver and the model use the SciPy protocol (allocate C(A.rows,B.cols), "
-        "pass 1, size j_/x_ to p_[rows], pass 2, trim)",
+        "pass 1, size j_/x_ to p_[rows], pass 2 -- which since the repair trims and sorts its result --, final resize)",
         "vector::insert/erase positions and DenseMatrix::get are bounds-checked in the model (the library relies on its callers)",
     ]
 
